@@ -232,8 +232,7 @@ PROPS["C14"] = {
     "harness": ["c14"],
     "both_profiles": True,
     "t1_facts": ["eeprom:"],
-    "known_keys_expected": ["c14/write-all-odd-panics", "c14/write-all-overrun-panics", "c14/write-range-overflow",
-                            "c14/write-retry-exhausted-reports-ok"],
+    "known_keys_expected": ["c14/write-retry-exhausted-reports-ok"],
     "modelled": "SubDeviceEeprom::{set_station_alias, station_alias, start_at}, EepromRange::{new, Read::read, Write::write}, "
                 "embedded-io-async read_exact / write_all default methods (incl. their panics), crc::Crc<u8>::checksum for the "
                 "non-reflected 8-bit algorithm as a bitwise shift register, DeviceEeprom::write_word's retry decision; u16 "
@@ -251,10 +250,7 @@ PROPS["C14"] = {
             "write of >= 2 bytes; distinct = distinct case line",
     "assumptions": [
         "provider serves at least 2 bytes per read_chunk (real devices: 4 or 8) and never fails in the in-memory runs",
-        "generic-write theorems are for windows that EepromRange::new can represent (start_word*2 + len_words*2 < 65536); "
-        "beyond that see known finding c14/write-range-overflow",
-        "write_all exactness is proved for even payloads that fit the window (known findings c14/write-all-odd-panics, "
-        "c14/write-all-overrun-panics)",
+        "windows are clipped to the 2^16 words the provider's word addresses can reach (range_new_exact: every u16 start/length)",
         "busy polling / time-outs of the device provider are exercised on the real code only (simulated ESC), not modelled",
     ],
 }
@@ -263,20 +259,18 @@ MANIFEST_TEXT["C14"] = {
     "text": "Theorems, for both build modes, every device memory, chunk size >= 2 and all 65536 aliases: alias_two_words "
             "(set_station_alias returns Ok, its only provider writes are word 4 := alias and word 7 := (crc8 of the 14 header "
             "bytes after patching, 0), memory = old memory with those four bytes replaced, alias read back = new alias), "
-            "alias_others_unchanged, alias_checksum_valid (byte 14 = crc8 of bytes 0..13 as they read afterwards, byte 15 = 0); "
-            "crc8_spec (the shift-register definition is the remainder of msg*x^8 + 0xFF*x^(8n) divided by x^8+x^2+x+1 over "
-            "GF(2): exists quotient, degree < 8; by induction over the message with one evaluated 256-case byte lemma); "
-            "write_exact / write_never_past_end (EepromRange::write on any aligned window < 64 KiB stores min(ceil(len/2), room) "
-            "words of the zero-padded buffer at consecutive word addresses, reports 2k, nothing else changes, no panic); "
-            "write_all_exact_partial (+ write_all_odd_counterexample, write_all_overrun_counterexample); range_new_partial "
-            "(+ range_new_overflow_counterexample); write_retry_bound (1..21 attempts, stops at first accepted attempt k<=20 "
-            "with k+1 attempts, 21 when the first 20 are refused). Tied by regenerated constants and by diffing results, write "
-            "logs and call counts of the real code against the model; independent monitors recompute the CRC by bit-vector long "
-            "division and diff the memory before/after.",
+            "alias_others_unchanged, alias_checksum_valid; crc8_spec + crc8_unique (the shift-register definition is THE "
+            "remainder of msg*x^8 + 0xFF*x^(8n) divided by x^8+x^2+x+1 over GF(2)); write_exact / write_exhausted / "
+            "write_never_past_end (EepromRange::write on any aligned window stores min(ceil(len/2), room) words of the "
+            "zero-padded buffer, reports the bytes it consumed, nothing else changes, no panic); write_all_exact (EVERY payload "
+            "length, odd included, that fits: stored exactly, Ok) and write_all_overrun (longer than the window: the part that "
+            "fits is stored, Err(SectionOverrun), never a panic); range_new_exact (every u16 start word / length); "
+            "write_retry_bound (1..21 attempts, stops at first accepted attempt k<=20 with k+1 attempts, 21 when the first 20 are "
+            "refused). Former counterexamples kept as write_all_odd_fixed, write_all_overrun_fixed, range_new_overflow_fixed.",
     "note": "Trusted: Lean kernel; hand translation (validated on generated cases only); the in-memory provider and the simulated "
-            "ESC as environments. Known findings (genuine defects, not repaired): write_all panics for odd payloads and for "
-            "payloads longer than the window (so eeprom_write_dangerously::<u8> always panics); word addresses >= 0x8000 overflow "
-            "the u16 byte cursor; write_word reports Ok(()) after 21 refused attempts.",
+            "ESC as environments. One known finding left on purpose: write_word reports Ok(()) after 21 refused attempts — the "
+            "maintainers' own note in eeprom/types.rs says real hardware (EK1100) sets the command-error flag on SUCCESSFUL "
+            "writes, so turning exhaustion into an error would break set_alias_address there; needs a hardware decision.",
     "technique": "Lean 4 proof (loop invariants, GF(2) polynomial algebra for the CRC) + differential correspondence on the real code",
 }
 
@@ -929,55 +923,52 @@ PROPS["C13"] = {
     "harness": ["c13"],
     "both_profiles": True,
     "t1_facts": ["eeprom:"],
-    "known_keys_expected": ["c13/panic-new-mul", "c13/panic-new-add",
-                            "c13/panic-skip_ahead_bytes-add",
-                            "c13/panic-read_byte-add"],  # c13/hang-category-walk shows in the release profile (thorough) only
+    "known_keys_expected": [],
     "modelled": "SubDeviceEeprom::{category, start_at, station_alias, size, identity, mailbox_config, general, sync_managers, "
                 "fmmus, fmmu_mappings, pdos, find_string, device_name, device_description, items}, CategoryIterator::{next, "
-                "next_sub_item}, EepromRange::{new, skip_ahead_bytes, read_byte, Read::read}, embedded-io-async read_exact, the "
-                "derived wire parsers of SyncManager/Pdo/PdoEntry/FmmuEx/DefaultMailbox/SiiGeneral and their enums/bitflags; "
-                "every unchecked u16 +/* through add16/mul16 in checked (panic) and wrapping mode; trace! arguments evaluated as "
-                "in the no_std build; provider calls counted; loops with explicit fuel (category walk: 65536*32+8)",
-    "rule": "adversarial corpus (the byte-exact witnesses of the Lean counterexample theorems; blank/zero images of 0..2048 "
-            "bytes with ff/00/wrap fill; first category length 0xFFFF/0xFFFE/0x8000/0x7FFF/... x 6 types; wrap-to-self, two-cycle "
-            "and periodic images; size words 510..0xFFFF; string index one past the table; string lengths overrunning the "
-            "category; empty categories at words 0x7FFA..0x7FFD; 255x255-bit PDOs, 65 PDOs, missing PDO entries; 9 SMs / 17 "
-            "FMMU_EX / 20 FMMUs; 31/32/33 empty categories), random byte images 0..2048 bytes, device descriptions encoded and "
-            "then mutated 0-2 times (byte flips, extreme / near-miss length words, changed types, truncation, erased runs), a few "
-            "images beyond 64 KiB; chunk size 4 and 8; per image 24 queries (alias, size, identity, mailbox, general, SMs, FMMUs, "
-            "FMMU_EX, TX/RX PDOs, 8 category searches, 5 string lookups with N in {4,16,64,128,255}, name, description). The REAL "
-            "parsers run on an in-memory provider with a provider-call cap (outcome `hang`), one catch_unwind per query; compared "
-            "with the model: value/error token, panic site (<enclosing fn>:<add|mul|...>) and provider-call count. Dev profile "
-            "and (thorough) release profile. non-trivial = image with >= 3 distinct outcome classes; distinct = distinct image",
+                "next_sub_item}, EepromRange::{new, word_pos, skip_ahead_bytes, read_byte, Read::read}, embedded-io-async "
+                "read_exact, the derived wire parsers of SyncManager/Pdo/PdoEntry/FmmuEx/DefaultMailbox/SiiGeneral and their "
+                "enums/bitflags; the remaining unchecked u16 arithmetic (PDO bit sum) through add16 in checked (panic) and "
+                "wrapping mode, the u32 cursor arithmetic exactly with the invariant pos,end <= 2^17; provider calls counted; "
+                "loops with explicit fuel (category walk: 32768+8); source shapes of the repaired sites checked by T1",
+    "rule": "adversarial corpus (the byte-exact witnesses of the former counterexample theorems, now `_fixed` theorems; "
+            "blank/zero images of 0..2048 bytes with ff/00/wrap fill; first category length 0xFFFF/0xFFFE/0x8000/0x7FFF/... x 6 "
+            "types; wrap-to-self, two-cycle and periodic images; size words 510..0xFFFF; string index one past the table; string "
+            "lengths overrunning the category; categories at words 0x7FFA..0x7FFD with lengths 0,1,2; 255x255-bit PDOs, 65 PDOs, "
+            "missing PDO entries; 9 SMs / 17 FMMU_EX / 20 FMMUs; 31/32/33 empty categories), random byte images 0..2048 bytes, "
+            "device descriptions encoded and then mutated 0-2 times (byte flips, extreme / near-miss length words, changed "
+            "types, truncation, erased runs), a few images beyond 64 KiB; chunk size 4 and 8; per image 24 queries (alias, size, "
+            "identity, mailbox, general, SMs, FMMUs, FMMU_EX, TX/RX PDOs, 8 category searches, 5 string lookups with N in "
+            "{4,16,64,128,255}, name, description). The REAL parsers run on an in-memory provider with a provider-call cap "
+            "(outcome `hang`), one catch_unwind per query; monitors: no panic, no hang, <= 184801 provider calls (the theorem's "
+            "bound), collections within capacity; compared with the model: value/error token, panic site and provider-call "
+            "count. Dev profile and (thorough) release profile. non-trivial = image with >= 3 distinct outcome classes; "
+            "distinct = distinct image",
     "assumptions": [
         "provider serves 4 or 8 bytes per read_chunk (theorems: >= 4) and never fails; device memory holds bytes (< 256)",
-        "the no_std build configuration (no log/defmt): fmt::trace!(..) evaluates its arguments, which makes `word_addr * 2` in "
-        "category() an overflow site; with the `log` feature that site is silent and the walk goes on to category:add / new:mul",
-        "at most two hanging queries per image and 60 hanging images are handed to the model in a release run (2 M model "
-        "iterations each); every image is still monitored on the real code; the release run generates a third of the "
-        "random / mutated images of the dev run (each non-terminating image costs ~0.2 s of provider calls)",
+        "the arguments of EepromRange::new are u16 values (its signature), so its u32 arithmetic is exact",
+        "the release run generates a third of the random / mutated images of the dev run",
         "the configuration arithmetic that consumes PDO bit lengths (configure_pdos_*, increment_byte_aligned) is not covered "
-        "by this check: it needs a MainDevice + simulated segment (see level_note)",
+        "by this check: it needs a MainDevice + simulated segment (C08's model)",
     ],
 }
 
 MANIFEST_TEXT["C13"] = {
-    "text": "A Hoare-style calculus on the cost-counting model (Tri: provider calls <= B, runs out of fuel only if allowed, panics "
-            "only at listed sites, postcondition) with one lemma per translated function, for ARBITRARY memories, both chunk sizes "
-            "and both build modes. Theorems: eeprom_queries_total_checked (every query terminates within an explicit bound and "
-            "returns value/absent/error or panics at one of eight u16 overflow sites and nowhere else), "
-            "eeprom_queries_never_panic_wrapping (release builds never panic; all loops but the category walk bounded), "
-            "eeprom_queries_total_partial (if no category search overflows, release builds terminate within the tight bound and "
-            "never panic; uses category_agree: checked run panic-free => wrapping run identical), access_bound (category search "
-            "<= 32737 calls, every query <= 184801), collections_bounded (lists <= heapless capacity, strings <= N). The full "
-            "statement is false of the code: one counterexample theorem per defect class with a concrete image "
-            "(category_len_overflow, size_overflow, category_beyond_32k, found_category_overflow, skip_overflow, "
-            "read_byte_overflow, and category_wrap_hang: for EVERY fuel the release walk is still running).",
+    "text": "A Hoare-style calculus on the cost-counting model (Tri: provider calls <= B, never out of fuel, panics only at "
+            "listed sites, postcondition) with one lemma per translated function, for ARBITRARY memories, both chunk sizes and "
+            "both build modes. After the repairs in /repo (category walk, size, EepromRange cursor) the list of overflow sites "
+            "is empty and the full statement holds: eeprom_queries_total (every query, every image, both build modes: "
+            "terminates, returns value/absent/error, within an explicit bound) + eeprom_queries_never_panic; catLoop_terminates "
+            "(the word address grows by >= 2 per step through a checked addition: <= 32737 calls); access_bound (every query "
+            "<= 184801 calls); collections_bounded (lists <= heapless capacity, strings <= N). The eight former counterexample "
+            "images are kept as `_fixed` theorems (category_len_overflow_fixed, category_beyond_32k_fixed, "
+            "category_wrap_hang_fixed, size_overflow_fixed, found_category_overflow_fixed, skip_overflow_fixed, "
+            "read_byte_overflow_fixed) and in the corpus: they now yield values or SectionOverrun.",
     "note": "Trusted: Lean kernel; hand translation (which operations can panic, evaluation order) validated by diffing outcome, "
-            "panic site and provider-call count on ~1.2 k (quick) / ~15 k (thorough) images per profile. Known findings (not "
-            "repaired): eight overflow panics in debug builds and a non-terminating category walk in release builds. Not "
-            "covered: configure_pdos_* / increment_byte_aligned arithmetic on PDO bit sums (u16 .sum(), * oversampling, "
-            "(bits+7)/8) — modelled by nobody yet; init on a simulated device carrying the image is C09's harness.",
+            "panic site and provider-call count on ~1.2 k (quick) / ~20 k (thorough) images over both profiles; T1 checks the "
+            "source shape of every repaired site (checked_add, usize size, u32 cursor, read_byte guard) so that a regression to "
+            "unchecked arithmetic is reported even before a failing image is found. Not covered: configure_pdos_* / "
+            "increment_byte_aligned arithmetic on PDO bit sums (C08).",
     "technique": "Lean 4 proof (Hoare calculus over a total model with explicit panic/fuel outcomes, both overflow modes) + differential correspondence",
 }
 
@@ -986,8 +977,7 @@ PROPS["C12"] = {
     "harness": ["c12"],
     "both_profiles": True,
     "t1_facts": ["eeprom:"],
-    "known_keys_expected": ["c12/odd-length-truncated", "c12/range-beyond-64k", "c12/category-beyond-64k",
-                            "c12/find-string-one-past"],
+    "known_keys_expected": [],
     "modelled": "EepromRange::{new, Read::read, read_byte, skip_ahead_bytes}, embedded-io-async read_exact, "
                 "SubDeviceEeprom::{start_at, category, items, find_string, sync_managers, fmmus, fmmu_mappings, pdos, "
                 "mailbox_config, general, identity, size, device_name, device_description}, the derived wire parsers of the SII "
@@ -1004,30 +994,30 @@ PROPS["C12"] = {
             "non-trivial = all-ranges case / device with >= 3 categories; distinct = distinct image",
     "assumptions": [
         "provider serves at least 2 bytes per read_chunk (real devices: 4 or 8) and never fails",
-        "range theorems are for windows whose end is below byte 65536 (EepromRange's u16 cursor); beyond: known finding",
-        "round trips are for well-formed images below 64 KiB with fewer than 32 empty categories before the one searched for "
-        "(the code's blank-EEPROM heuristic)",
+        "windows are clipped to the 2^16 words (128 KiB) that EepromDataProvider's u16 word addresses can reach; generated "
+        "images are kept inside that space (larger EEPROMs cannot be addressed through this trait at all)",
+        "round trips are for well-formed images inside that space with fewer than 32 empty categories before the one searched "
+        "for (the code's blank-EEPROM heuristic, kept)",
     ],
 }
 
 MANIFEST_TEXT["C12"] = {
-    "text": "range_read_exact: for every memory, chunk size >= 2, build mode, window (any cursor parity, end < 64 KiB) and ANY "
-            "sequence of partial reads, each call returns exactly the stored bytes [pos, pos+k) with k = min(requested, end-pos), "
-            "never an error or panic; range_read_contiguous (all calls together return one contiguous prefix of the window, "
-            "nothing from end on); range_window_partial (+ range_window_counterexample: words >= 0x8000); "
-            "read_raw_exact_partial (+ read_raw_odd_counterexample: start_at halves the byte length, odd lengths lose the last "
-            "byte, eeprom_read::<u8> always fails). Against an independent layout spec (EepromSpec.encodeSii: header, categories "
-            "in any order incl. unknown types, End marker): category_found (exact byte extent of every present category), "
-            "category_absent, category_found_counterexample (32 empty categories); round trips sync_managers_roundtrip, "
-            "fmmus_roundtrip, fmmu_mappings_roundtrip (with pad byte), find_string_roundtrip (NUL stripping, non-ASCII -> '?', "
-            "any position in the table) + find_string_one_past_counterexample, identity_roundtrip, mailbox_roundtrip, "
-            "size_roundtrip_partial + size_counterexample; t1_layouts / t1_constants tie the literal offsets to the layouts "
-            "regenerated from /repo. All for any chunk size >= 4 and both build modes, images below 64 KiB.",
+    "text": "range_read_exact: for every memory, chunk size >= 2, build mode, window (any cursor parity, end inside the 2^17-byte "
+            "address space) and ANY sequence of partial reads, each call returns exactly the stored bytes [pos, pos+k) with k = "
+            "min(requested, end-pos), never an error or panic; range_read_contiguous; range_window (EVERY u16 start word and "
+            "length: the window is the bytes of the words asked for, clipped to the address space); read_raw_exact and "
+            "read_typed_exact (eeprom_read_raw / eeprom_read::<T> for every length, odd included). Against an independent layout "
+            "spec (EepromSpec.encodeSii: header, categories in any order incl. unknown types, End marker): category_found (exact "
+            "byte extent of every present category, images up to 128 KiB), category_absent, category_found_counterexample (32 "
+            "empty categories: the code's heuristic, kept); round trips sync_managers_roundtrip, fmmus_roundtrip, "
+            "fmmu_mappings_roundtrip (with pad byte), find_string_roundtrip (NUL stripping, non-ASCII -> '?', any position in "
+            "the table), identity_roundtrip, mailbox_roundtrip, size_roundtrip (every size word); former counterexamples kept as "
+            "range_window_fixed, read_raw_odd_fixed, find_string_one_past_fixed; t1_layouts / t1_constants tie the literal "
+            "offsets to the layouts regenerated from /repo.",
     "note": "Trusted: Lean kernel; hand translation (validated on generated cases); the oracle's reading of ETG2010. PDO lists "
             "with bit lengths and the General category are tied by the correspondence and the Rust oracle only (no Lean round "
-            "trip). Known findings (not repaired): odd byte lengths truncated by start_at; windows/categories beyond byte 65535 "
-            "unreachable (panic in debug, wrong bytes in release); size() overflows from 512 Kbit; find_string accepts index = "
-            "count + 1.",
+            "trip). All former known findings of this property are repaired in /repo (u32 cursor, size in usize, find_string "
+            ">=, start_at div_ceil).",
     "technique": "Lean 4 proof (loop invariants over chunk assembly; walk induction over encoded categories) + differential correspondence",
 }
 
@@ -1041,3 +1031,13 @@ PROPS["C02"]["lean_modules"].append("EcModel.Props.C02Micro")
 MANIFEST_TEXT["C02"]["text"] += (" C02Micro: the same invariant proved DIRECTLY on the micro-step model (micro_inv_step over all 34 program counters, micro_inv_reachable "
                                  "for every schedule): micro_mutual_exclusion, micro_at_most_one_inside_claim, micro_buffer_access_by_insider, "
                                  "micro_buffer_changes_only_by_insider, micro_exactly_one_owner; counterexamples for abandonment inside the window.")
+PROPS["C04"]["harness"].append("c04r")
+PROPS["C04"].setdefault("drivers", {})["c04r"] = "drv_seq"
+PROPS["C04"]["rule"] += (" || c04r: frames built in REUSED slots: random sequential histories over 1-2 slots (allocations, pushes, sends ok/partial/"
+                         "error, responses shorter/equal/LONGER than the request, garbage, timeouts, drops, response reads) compared op by op and by "
+                         "full snapshot with the storage model; monitor: every frame handed to the send closure by a live request is exactly the "
+                         "encoding of that request's pushes (zero padding, zero working counters, nothing left from the slot's past)")
+PROPS["C06"]["harness"].append("c06h")
+PROPS["C06"]["drivers"]["c06h"] = "drv_seq"
+PROPS["C06"]["rule"] += (" || c06h ('never hanging'): directed plans, retries 0-3 x fault {every send fails, TX never runs, oversize response leaves "
+                         "RxBusy, all responses lost}: after exactly retries+1 expired deadlines the poll must answer Timeout(Pdu), not earlier, never pending forever")
